@@ -79,11 +79,22 @@ func genC14Project(rng *rand.Rand, idx int, kind string) c14Project {
 	errLines := []string{"let bad: i32 = undefinedName;", "let bad: str = 5;", "let bad: i32 = \"s\";", "missingFn(1);", "let bad: i8 = 300;"}
 	nerr := 0
 	backTo := rng.IntN(n - 1) // cycle projects: the last module imports this one, which imports the last
+	hasImporter := make([]bool, n)
 	for i := 0; i < n; i++ {
 		var imps []int
 		for j := i + 1; j < n; j++ { // DAG: only higher-numbered modules
+			if kind == "parse-error-chain" {
+				// m0 is a leaf with a syntax error; m1 -> m2 -> ... -> m(n-1) is a chain in which every
+				// module has exactly one importer, and the last one carries a type error
+				if i >= 1 && j == i+1 {
+					imps = append(imps, j)
+					hasImporter[j] = true
+				}
+				continue
+			}
 			if rng.IntN(3) == 0 || (kind == "cycle" && i == backTo && j == n-1) {
 				imps = append(imps, j)
+				hasImporter[j] = true
 			}
 		}
 		el := ""
@@ -91,7 +102,13 @@ func genC14Project(rng *rand.Rand, idx int, kind string) c14Project {
 			el = errLines[rng.IntN(len(errLines))]
 			nerr++
 		}
+		if kind == "parse-error-chain" && i == n-1 {
+			el = errLines[rng.IntN(len(errLines))]
+		}
 		src := c14Module(i, imps, rng, el)
+		if kind == "parse-error-chain" && i == 0 {
+			src = strings.Replace(src, fmt.Sprintf("fn Name%d() -> str {", i), fmt.Sprintf("fn Name%d() -> str {\n    let broken%d: i32 = ;", i, i), 1)
+		}
 		if kind == "parse-errors" && (i%2 == 0 || i == n-1) {
 			// the same syntax error on the same line of several concurrently parsed modules
 			src = strings.Replace(src, fmt.Sprintf("fn Name%d() -> str {", i), fmt.Sprintf("fn Name%d() -> str {\n    let broken%d: i32 = ;", i, i), 1)
@@ -102,13 +119,22 @@ func genC14Project(rng *rand.Rand, idx int, kind string) c14Project {
 		}
 		p.files[fmt.Sprintf("m%d.fer", i)] = src
 	}
+	// main imports the modules nobody else imports (and a few more): most modules are reachable only
+	// through a chain of other modules, some through exactly one importer
 	var sb strings.Builder
 	sb.WriteString("import \"std/io\";\n")
+	fromMain := make([]bool, n)
 	for i := 0; i < n; i++ {
-		fmt.Fprintf(&sb, "import \"{{PROJ}}/m%d\" as m%d;\n", i, i)
+		fromMain[i] = !hasImporter[i] || rng.IntN(4) == 0
+		if fromMain[i] {
+			fmt.Fprintf(&sb, "import \"{{PROJ}}/m%d\" as m%d;\n", i, i)
+		}
 	}
 	sb.WriteString("\nfn main() {\n")
 	for i := 0; i < n; i++ {
+		if !fromMain[i] {
+			continue
+		}
 		fmt.Fprintf(&sb, "    let c%d := m%d::Calc%d(%d);\n    io::Println(c%d);\n    let n%d := m%d::Name%d();\n    io::Println(n%d);\n", i, i, i, i+1, i, i, i, i, i)
 	}
 	sb.WriteString("    let lam := fn(y: i32) -> i32 {\n        return y * 3;\n    };\n    let z := lam(4);\n    io::Println(z);\n")
@@ -138,7 +164,7 @@ type c14Obs struct {
 
 func checkC14(c *Ctx) error {
 	r := c.R
-	r.Rule = "generated projects of 4-9 modules (function literals in every module, anonymous struct types, interfaces with two implementers per module, enums, strings; closures capturing 2-5 locals; one third with type errors in several files, one sixth with the same syntax errors on the same lines of several modules, one sixth with an import cycle) compiled repeatedly in the same directory: ferret-verif with distinct (GOMAXPROCS in {1,2,4,16}, VERIF_SCHED seed) for native (-keep-gen) and wasm, ferret-race (race detector) and the plain ferret; all observations (exit status, stderr bytes, each gen/*.ssa, .wasm bytes) must be identical; non-trivial = a distinct project for which >=2 distinct parse orders were actually observed in the event log and all runs agreed"
+	r.Rule = "generated projects of 4-9 modules (main imports only the modules nobody else imports plus a few more, so most modules are reachable only through chains and some through exactly one importer; function literals in every module, anonymous struct types, interfaces with two implementers per module, enums, strings; closures capturing 2-5 locals; one third with type errors in several files, one sixth with the same syntax errors on the same lines of several modules, one sixth a leaf with a syntax error next to a chain of modules with exactly one importer each (the last one with a type error), one sixth with an import cycle) compiled repeatedly in the same directory: ferret-verif with distinct (GOMAXPROCS in {1,2,4,16}, VERIF_SCHED seed) for native (-keep-gen) and wasm, ferret-race (race detector) and the plain ferret; all observations (exit status, stderr bytes, each gen/*.ssa, .wasm bytes) must be identical; non-trivial = a distinct project for which >=2 distinct parse orders were actually observed in the event log and all runs agreed"
 	r.Assumptions = []string{"the hooks only yield/sleep between critical sections of parseModule and log events; they never change data", "runs of one project share the directory, so absolute paths in diagnostics are identical by construction"}
 	nProj := c.N(6, 90)
 	nSched := c.N(4, 14)
@@ -164,6 +190,8 @@ func checkC14(c *Ctx) error {
 		rng := r.Rng(pi)
 		kind := "ok"
 		switch pi % 6 {
+		case 2:
+			kind = "parse-error-chain"
 		case 1, 4:
 			kind = "errors"
 		case 3:
